@@ -454,7 +454,9 @@ def find_fn(sf, impl_pat, name, features, nth=None):
                     jj += 1
                 if bo is not None and item_cfg_ok(sf, first, k, features):
                     cands.append(dict(first=first, quals=k, fn_kw=j, body_open=bo,
-                                      body_close=sf.pairs[bo], impl_header=header))
+                                      body_close=sf.pairs[bo], impl_header=header,
+                                      impl_open=(b if impl_i is not None else None),
+                                      impl_close=(e if impl_i is not None else None)))
             j += 1
     if nth is not None:
         if nth - 1 >= len(cands):
@@ -689,6 +691,14 @@ def parse_vc(path):
                     if not m2:
                         raise ExtractError(f'{path}: bad #abstract-stmt (need `sha=<hash> /regex/ = stmt`): {s2}')
                     fn.setdefault('abstract_stmts', []).append((m2.group(2), m2.group(3).strip(), m2.group(1)))
+                elif s2.startswith('#subst '):
+                    # R10: `#subst Self::OutputType => ExternalReceivedMessage`: an associated type of the enclosing
+                    # trait impl is replaced by the type the impl assigns to it (the unit wraps the method in an
+                    # inherent impl, where `Self::X` does not resolve)
+                    m2 = re.match(r'#subst\s+(.+?)\s*=>\s*(.+)$', s2)
+                    if not m2:
+                        raise ExtractError(f'{path}: bad #subst: {s2}')
+                    fn.setdefault('subst', []).append((m2.group(1).strip(), m2.group(2).strip()))
                 elif s2.startswith('#truncate-after '):
                     # R9: `#truncate-after /regex/ = tail-expression`: everything of the body BEHIND the match is
                     # replaced by one call to an unconstrained assumed function (only a prefix is verified)
@@ -860,6 +870,30 @@ def extract_fn(repo, spec, features):
         edits.add(T[a].start, T[e].start, ' ' + repl, 'rewrite', 'R7 abstract stmt')
         log.append({'step': 'R7', 'line': sf.line_of(T[a].start), 'abstracted_unverified': txt.replace(' ', '')[:400], 'replaced_by': repl})
         dropped.append((T[a].start, T[e].start))
+
+    # ---- R10: associated-type substitution (signature and body).  Checked against the impl block: the
+    # impl must contain `type X = <replacement>;` literally.
+    for (frm, to) in spec.get('subst', []):
+        m_ = re.fullmatch(r'Self\s*::\s*(\w+)', frm)
+        if not m_:
+            raise ExtractError(f'R10: only `Self::Name` can be substituted ({frm})')
+        name = m_.group(1)
+        io, ic = loc.get('impl_open'), loc.get('impl_close')
+        decl = None
+        if io is not None:
+            for j in range(io + 1, ic):
+                if is_id(T[j], 'type') and is_id(T[j + 1], name) and is_p(T[j + 2], '='):
+                    e = j + 3
+                    while not is_p(T[e], ';'):
+                        e += 1
+                    decl = norm(T[j + 3:e]).replace(' ', '')
+                    break
+        if decl is None or decl != to.replace(' ', ''):
+            raise ExtractError(f'R10 refused: the impl does not declare `type {name} = {to};` (found {decl})')
+        for j in range(fn_kw, bc):
+            if is_id(T[j], 'Self') and is_p(T[j + 1], ':') and is_p(T[j + 2], ':') and is_id(T[j + 3], name) and alive(T[j]):
+                edits.add(T[j].start, T[j + 3].end, to, 'rewrite', 'R10 subst')
+        log.append({'step': 'R10', 'before': frm, 'after': to, 'note': f'impl declares `type {name} = {to};`'})
 
     # ---- R9: body truncation.  The statements behind the (unique) match of the regex, up to the end of the
     # body, are dropped and replaced by ONE tail call to an assumed function without postcondition that takes
